@@ -258,6 +258,12 @@ def run_case(name, entry, seed, modes=("eager", "jit", "vmap", "flatten", "seria
     except Exception as e:
         errs.append(("serialise", "-", f"tree_serialise_leaves/tree_deserialise_leaves raises {type(e).__name__}: {str(e)[:100]}"))
         obj_ser = None
+    try:  # NumPy-leaf copy of the model (writable arrays).  VmapMixture is left out: its vmapped component construction is only
+        # mapped over jax arrays (eqx.filter_vmap's default), so with NumPy leaves sampling raises a shape error on the unchanged tree too
+        # (loud, not silent; recorded as an observation in DESIGN section 2)
+        obj_np = None if name == "VmapMixture" else jtu.tree_map(lambda l: np.array(l, copy=True) if isinstance(l, jax.Array) else l, obj)
+    except Exception:  # noqa: BLE001
+        obj_np = None
     for m in methods_of(kind, flags):
         f = lambda o, x, key, c, _m=m: call(o, _m, x, key, c)
         (x1, k1, c1), (x2, k2, c2) = inputs
@@ -282,6 +288,21 @@ def run_case(name, entry, seed, modes=("eager", "jit", "vmap", "flatten", "seria
                     errs.append(("eager", m, f"two different inputs give the identical result {main1.ravel()[:3]} (stale / memoised value?)"))
             except Exception as e:
                 errs.append(("eager", m, f"repeated call raises {type(e).__name__}: {str(e)[:100]}"))
+        if "eager" in modes and obj_np is not None:
+            # the same model with NumPy array leaves (restored from an npz / pickle checkpoint, tree_map(np.asarray, model)): the
+            # methods are pure there too -- same values, repeated calls agree, the leaves are not written to (seeded change C14e)
+            try:
+                before = [np.array(l, copy=True) for l in jtu.tree_leaves(obj_np) if isinstance(l, np.ndarray)]
+                n1 = f(obj_np, x1, k1, c1)
+                n2 = f(obj_np, x1, k1, c1)
+                after = [l for l in jtu.tree_leaves(obj_np) if isinstance(l, np.ndarray)]
+                d = cmp(n1, e1, 0.0 if exact else RTOL) or cmp(n2, n1, 0.0)
+                if d:
+                    errs.append(("numpy-leaves", m, f"with NumPy array leaves the method differs from the jax-leaf result / between two identical calls: {d}"))
+                elif any(a.tobytes() != b.tobytes() for a, b in zip(before, after)):
+                    errs.append(("numpy-leaves", m, "the call modified the model's own (NumPy) parameter arrays in place"))
+            except Exception as e:  # noqa: BLE001
+                errs.append(("numpy-leaves", m, f"raises {type(e).__name__} with NumPy array leaves: {str(e)[:100]}"))
         if "jit" in modes:
             try:
                 jf = eqx.filter_jit(f)
